@@ -12,7 +12,7 @@ from .. import dmg, evidence, par, scen
 RULE = ("random configuration (1..6 parity + z, 1..6 data disks incl. position holes from removed disks, block 1/2/4 KiB, hash "
         "16/8/4/2 and both kinds incl. a migration in progress, 1..4 splits, 1..4 content copies) and random sync history (adds, "
         "deletes, moves, partial -B syncs, -R) ending in a clean sync; then a damage plan touching <= N devices (disk wiped, files "
-        "deleted / truncated / bytes flipped with kept time-stamp, parity deleted / zeroed / truncated / flipped / randomised) or "
+        "deleted / truncated / bytes flipped with kept or moved time-stamp, links removed or re-pointed (prefix / extension / other target, plain file or independent copy in their place), one file renamed over another, parity deleted / zeroed / truncated / flipped / randomised) or "
         "<= N blocks of every stripe chosen independently from the decoded block map; then fix and check. Oracle: fix exit 0 with no "
         "unrecoverable error, every recorded file/symlink/hardlink/empty dir byte- and mtime-identical to the harness snapshot "
         "taken at sync time, following check clean. thorough: all device subsets of size <= N when nd+np <= 7. A case is "
